@@ -58,7 +58,7 @@ CHECKS = {
             "1-3 grid fields x sizes 1-3(4) x element kinds (scalar, object with 1-2 keys, mixed) x every key order x extra fields x section position, through GridSearchPlugin::process and apply_input_plugins: canonical multiset of outputs equals the reference product, count = product of sizes, no grid key left, extras preserved, pass-through unchanged.",
             "Trusted: reference product (props/c17.rs). Object-valued choices use disjoint keys.", "§4.17"),
     "C19": ("E3+E2", "stateless schedule exploration (CHESS-style preemption-bounded DFS over every lock, write and flush on the shared sink, each schedule re-run from scratch on the real worker code) + explicit enumeration of append histories",
-            "(a) K one-thread worker pools each run the real run_batch_with_responses / run_batch_without_responses against one shared ResponseSink (JSON lines and CSV, flush rate 1/2, both persistence policies, successes and errors of different sizes): all schedules of the 2x2 scenarios (2 630 - 3 864 each, no bound), 3-task scenarios up to preemption bound 2-3 (quick) / 3-5 (thorough); two scenarios with one Combined sink over a JSON-lines and a CSV file (both files judged); oracle on the final file: one terminated record per response, every JSON line parses, multiset of records = responses produced, CSV single header + rows per mapping in header order, no deadlock; all 6 (60) file orders observed. (b) histories of 1-2(3) runs appending to one file x 4 formats x persistence x parallelism: single header, rows accumulate, returned responses keep their information, input-plugin failures are written.",
+            "(a) K one-thread worker pools each run the real run_batch_with_responses / run_batch_without_responses against one shared ResponseSink (JSON lines and CSV, flush rate 1/2, both persistence policies, successes and errors of different sizes): all schedules of the 2x2 scenarios (2 630 - 3 864 each, no bound), 3-task scenarios up to preemption bound 2-3 (quick) / 3-5 (thorough); two scenarios with one Combined sink over a JSON-lines and a CSV file (both files judged); thorough: in addition the matrix {2,3} tasks x {1,2} queries x {jsonl, csv, combined} x flush 1-3 x keep/discard under bound 2 (72 scenarios); scenarios run in parallel worker processes; oracle on the final file: one terminated record per response, every JSON line parses, multiset of records = responses produced, CSV single header + rows per mapping in header order, no deadlock; all 6 (60) file orders observed. (b) histories of 1-2(3) runs appending to one file x 4 formats x persistence x parallelism: single header, rows accumulate, returned responses keep their information, input-plugin failures are written.",
             "Trusted: same as C06 (c). Replaying a prefix must reproduce the same (task,event) sequence or the run aborts as a machinery error; violating schedules are replayed twice by the replay command.", "§4.19"),
     "C20": ("E1", "bounded-exhaustive enumeration of routes/trees x geometry tables x 5 output formats through the real output plugins vs edge sequence and stored geometries",
             "Every enumerated network with a route is rendered through the real summary / traversal / uuid plugins in edge_id, json, geo_json, wkt and wkb (single routes and several KSP routes, trees, full geometry table and a table one row short, the latter also with the route rendering alone and the tree rendering alone so that one cannot mask the other): ids and per-edge records follow the returned edge sequence, geometry = concatenation of stored geometries in order, a missing geometry is an error response, one tree entry per branch, uuids of the matched vertices (identifier tables plain and gzip, with and without an empty identifier in a middle row), summary = last state; plus an application-level pass per format.",
